@@ -27,6 +27,7 @@ import Vlsp.Model.Parsers
 import Vlsp.Model.Pos
 import Vlsp.Model.Pypi
 import Vlsp.Props.C04Layout
+import Vlsp.Props.C04LayoutToml
 import Vlsp.Model.Config
 
 /-! Line-protocol plumbing shared by the driver's op tables. -/
@@ -494,13 +495,33 @@ def ajsonStr : C04.AJson → String
            (match m2.2 with | some (.str t c) => s!"s{hex t}{if c then "" else "!"}" | some (.other k) => s!"o({k})" | some (.obj _) => "{..}" | none => "-")) ++ "}"
        | none => "-")) ++ "}"
 
-/-- `x.abs <eco> <text> <dump>` : the abstract JSON reading of the real tree (the premise of the layout theorems) -/
+def aleafStr : C04.ALeaf → String
+  | .key t => s!"k{hex t}"
+  | .str t c => s!"s{hex t}{if c then "" else "!"}"
+  | .other => "o"
+
+def atokStr : C04.ATok → String
+  | .key t => s!"k{hex t}"
+  | .dotted t => s!"d{hex t}"
+  | .str t c => s!"s{hex t}{if c then "" else "!"}"
+  | .inline ps => "{" ++ ";".intercalate (ps.map fun p => ",".intercalate (p.map aleafStr)) ++ "}"
+  | .other => "o"
+
+def atableStr (t : C04.ATable) : String :=
+  "[" ++ (match t.name with | some n => hex n | none => "-") ++ "|" ++
+    ";".intercalate (t.pairs.map fun p => ",".intercalate (p.map atokStr)) ++ "|" ++
+    ";".intercalate (t.leafPairs.map fun p => ",".intercalate (p.map aleafStr)) ++ "]"
+
+/-- `x.abs <eco> <text> <dump>` : the abstract reading of the real tree (the premise of the layout theorems):
+    abstract JSON for package.json / deno.json, abstract TOML for Cargo.toml -/
 def absStep (op : String) (f : List Text) : Option String :=
   match op, f with
-  | "x.abs", [_, text, dump] =>
+  | "x.abs", [eco, text, dump] =>
     match treeOfDump dump with
     | none => some "-"
-    | some tree => some (match C04.absRoot text tree with | some a => ajsonStr a | none => "-")
+    | some tree =>
+      if eco == "crates".toList then some (" ".intercalate ((C04.normToml (C04.absToml text tree)).map atableStr))
+      else some (match C04.absRoot text tree with | some a => ajsonStr a | none => "-")
   | _, _ => none
 
 /-- the PyPI matcher model, the PEP 440 library's answers supplied with the request:
